@@ -23,7 +23,13 @@ class BaseParser(ABC):
         pass
 
     def find_file_locations(self) -> List[Path]:
-        return list(Path(self.parent_directory).rglob(self.file_type.value))
+        # like the files to analyze, dependency files must be regular files of the
+        # project: a symlink may point outside of it
+        return [
+            path
+            for path in Path(self.parent_directory).rglob(self.file_type.value)
+            if path.is_file() and not path.is_symlink()
+        ]
 
     def parse(self) -> list[PackageStore]:
         """
